@@ -1,0 +1,242 @@
+//go:build verif
+
+package messageset
+
+import (
+	"math"
+
+	"google.golang.org/protobuf/encoding/protowire"
+)
+
+// Contracts for the MessageSet item format (property C47).
+//
+// A MessageSet item is the group
+//
+//	0x0b  (start group, field 1)
+//	  0x10 varint(type_id)            field 2, varint
+//	  0x1a varint(len) payload        field 3, bytes
+//	0x0c  (end group, field 1)
+//
+// (spec: the MessageSet comment in messageset.go and the wire encoding document).
+
+// SizeField is the size of everything in an item except the message subfield.
+//
+//@ props C47
+//@ mode int
+func contract_SizeField(num protowire.Number) (r int) {
+	ensures(r == 3+protowire.SpecVlen(uint64(num)))
+	return
+}
+
+// AppendFieldStart emits the start-group tag, the type_id tag and the type id.
+//
+//@ props C47
+//@ mode int
+func contract_AppendFieldStart(b []byte, num protowire.Number) (r []byte) {
+	modifiesTail(b)
+	ensures(len(r) == len(b)+2+protowire.SpecVlen(uint64(num)))
+	ensures(sameArray(r, b) || freshSlice(r))
+	ensures(forallIn(r, 0, len(b), func(k int, e byte) bool { return e == old(b[k]) }))
+	ensures(r[len(b)] == 0x0b && r[len(b)+1] == 0x10)
+	ensures(protowire.SpecVarintAt(r, len(b)+2, uint64(num)))
+	return
+}
+
+// AppendFieldEnd emits the end-group tag of field 1.
+//
+//@ props C47
+//@ mode int
+func contract_AppendFieldEnd(b []byte) (r []byte) {
+	modifiesTail(b)
+	ensures(len(r) == len(b)+1)
+	ensures(sameArray(r, b) || freshSlice(r))
+	ensures(forallIn(r, 0, len(b), func(k int, e byte) bool { return e == old(b[k]) }))
+	ensures(r[len(b)] == 0x0c)
+	return
+}
+
+// Size agrees with what the two append halves emit.
+//
+//@ props C47
+//@ mode int
+func lemma_SizeFieldAppend(b []byte, num protowire.Number) {
+	r := AppendFieldEnd(AppendFieldStart(b, num))
+	ensures(len(r)-len(b) == SizeField(num))
+}
+
+// specItemCanon: b (the bytes after the start-group tag) is an item in the form the encoder
+// writes: type_id field, one message field, end-group tag.
+func specItemCanon(b []byte) bool {
+	if len(b) < 1 || b[0] != 0x10 {
+		return false
+	}
+	l1 := protowire.SpecVarintLen(b[1:])
+	if l1 <= 0 {
+		return false
+	}
+	t := protowire.SpecVarintVal(b[1:], l1)
+	if t < 1 || t > math.MaxInt32 {
+		return false
+	}
+	p := 1 + l1
+	if len(b) <= p || b[p] != 0x1a {
+		return false
+	}
+	l2 := protowire.SpecBytesLen(b[p+1:])
+	if l2 <= 0 {
+		return false
+	}
+	q := p + 1 + l2
+	return len(b) > q && b[q] == 0x0c
+}
+
+// specItemP: position of the message subfield's tag (0x1a) in a canonical item.
+func specItemP(b []byte) int { return 1 + protowire.SpecVarintLen(b[1:]) }
+
+// specItemQ: position of the end-group tag in a canonical item.
+func specItemQ(b []byte) int { return specItemP(b) + 1 + protowire.SpecBytesLen(b[specItemP(b)+1:]) }
+
+// specItemT: the type id of a canonical item.
+func specItemT(b []byte) protowire.Number {
+	return protowire.Number(protowire.SpecVarintVal(b[1:], protowire.SpecVarintLen(b[1:])))
+}
+
+// specItemMsg: message is the message subfield of the canonical item b (with or without its
+// length prefix).
+func specItemMsg(message, b []byte, wantLen bool) bool {
+	if wantLen {
+		return sameBase(message, b) && offsetIn(message, b) == specItemP(b)+1 && len(message) == specItemQ(b)-specItemP(b)-1
+	}
+	return sameBase(message, b) && offsetIn(message, b) == specItemP(b)+1+protowire.SpecVarintLen(b[specItemP(b)+1:]) &&
+		len(message) == specItemQ(b)-specItemP(b)-1-protowire.SpecVarintLen(b[specItemP(b)+1:])
+}
+
+// ConsumeFieldValue: safety for every input, and exact decoding of the encoder's form.
+//
+//@ props C47
+//@ mode int
+//@ nopanic
+//@ abstract protowire.specVarintLen protowire.specVarintVal protowire.specTagLen protowire.specBytesLen
+//@ loop 1 invariant suffixOf(b, old(b)) && ilen == len(old(b))
+//@ loop 1 invariant 0 <= typeid && typeid <= math.MaxInt32
+//@ loop 1 invariant message == nil || freshSlice(message) || (sameBase(message, old(b)) && cap(message) == len(message))
+//@ loop 1 invariant imp(wantLen && message != nil, len(message) >= 1)
+//@ loop 1 invariant imp(specItemCanon(old(b)), len(b) == ilen || ilen-len(b) == specItemP(old(b)) || ilen-len(b) == specItemQ(old(b)))
+//@ loop 1 invariant imp(specItemCanon(old(b)) && len(b) == ilen, typeid == 0 && message == nil)
+//@ loop 1 invariant imp(specItemCanon(old(b)) && ilen-len(b) == specItemP(old(b)), typeid == specItemT(old(b)) && message == nil)
+//@ loop 1 invariant imp(specItemCanon(old(b)) && ilen-len(b) == specItemQ(old(b)), typeid == specItemT(old(b)) && message != nil && specItemMsg(message, old(b), wantLen))
+func contract_ConsumeFieldValue(b []byte, wantLen bool) (typeid protowire.Number, message []byte, n int, err error) {
+	ensures(imp(err != nil, typeid == 0 && message == nil && n == 0))
+	ensures(imp(err == nil, 1 <= n && n <= len(b)))
+	ensures(imp(err == nil, 0 <= typeid && typeid <= math.MaxInt32))
+	ensures(imp(err == nil && wantLen, len(message) >= 1))
+	// the encoder's form is accepted and decoded exactly
+	ensures(imp(specItemCanon(b), err == nil && typeid == specItemT(b) && n == specItemQ(b)+1 && specItemMsg(message, b, wantLen)))
+	// the input buffer is never written (no modifies clause) and the result is a capacity-limited
+	// view of the input or a fresh buffer, so a later append cannot reach the input either
+	ensures(message == nil || freshSlice(message) || (sameBase(message, b) && cap(message) == len(message)))
+	return
+}
+
+// What the encoder writes for one item (start, message subfield, end) is decoded by
+// ConsumeFieldValue to the same type id and the same message bytes, consuming the whole item.
+//
+//@ props C47
+//@ mode int
+//@ abstract protowire.specVarintLen protowire.specVarintVal
+func lemma_ItemRoundTrip(num protowire.Number, v []byte, wantLen bool) {
+	requires(1 <= num && num <= math.MaxInt32)
+	s := AppendFieldStart(nil, num)
+	s = protowire.AppendTag(s, FieldMessage, protowire.BytesType)
+	p := len(s)
+	s = protowire.AppendBytes(s, v)
+	s = AppendFieldEnd(s)
+	protowire.Lemma_SpecVarintInverse(s[2:], uint64(num))
+	protowire.Lemma_SpecVarintInverse(s[p:], uint64(len(v)))
+	assert(specItemCanon(s[1:]))
+	typeid, message, n, err := ConsumeFieldValue(s[1:], wantLen)
+	ensures(err == nil && typeid == num && n == len(s)-1)
+	ensures(imp(!wantLen, bytesEq(message, v)))
+	ensures(imp(wantLen, len(message) == protowire.SpecVlen(uint64(len(v)))+len(v) && protowire.SpecVarintAt(message, 0, uint64(len(v)))))
+}
+
+// specUnknownSize: size in MessageSet form of an unknown-fields section that stores each
+// unresolved item (type id T, value V) as field T with bytes value V; -1 if the section is
+// not of that shape.
+//
+//@ opaque
+func specUnknownSize(u []byte) int {
+	if len(u) == 0 {
+		return 0
+	}
+	tn := protowire.SpecTagLen(u)
+	if tn < 0 || protowire.SpecVarintVal(u, tn)&7 != 2 {
+		return -1
+	}
+	bn := protowire.SpecBytesLen(u[tn:])
+	if bn < 0 {
+		return -1
+	}
+	rest := specUnknownSize(u[tn+bn:])
+	if rest < 0 {
+		return -1
+	}
+	// start group, type_id tag, type id, message tag, length prefix and payload, end group
+	return 3 + protowire.SpecVlen(protowire.SpecVarintVal(u, tn)>>3) + 1 + bn + rest
+}
+
+//@ props C47
+//@ mode int
+//@ nopanic
+//@ abstract protowire.specVarintLen protowire.specVarintVal protowire.specTagLen protowire.specBytesLen
+//@ loop 1 invariant suffixOf(unknown, old(unknown)) && 0 <= size && size <= 9*(len(old(unknown))-len(unknown))
+//@ loop 1 invariant imp(specUnknownSize(unknown) < 0, specUnknownSize(old(unknown)) < 0)
+//@ loop 1 invariant imp(specUnknownSize(unknown) >= 0, specUnknownSize(old(unknown)) == size+specUnknownSize(unknown))
+//@ loop 1 decreases len(unknown)
+func contract_SizeUnknown(unknown []byte) (size int) {
+	ensures(imp(specUnknownSize(unknown) >= 0, size == specUnknownSize(unknown)))
+	ensures(imp(specUnknownSize(unknown) < 0, size == 0))
+	return
+}
+
+//@ props C47
+//@ mode int
+//@ nopanic
+//@ abstract protowire.specVarintLen protowire.specVarintVal protowire.specTagLen protowire.specBytesLen
+//@ loop 1 invariant suffixOf(unknown, old(unknown)) && len(b) >= len(old(b))
+//@ loop 1 invariant sameArray(b, old(b)) || freshSlice(b)
+//@ loop 1 invariant disjointFromTail(old(unknown), b)
+//@ loop 1 invariant imp(specUnknownSize(unknown) < 0, specUnknownSize(old(unknown)) < 0)
+//@ loop 1 invariant imp(specUnknownSize(unknown) >= 0, specUnknownSize(old(unknown)) == len(b)-len(old(b))+specUnknownSize(unknown))
+//@ loop 1 decreases len(unknown)
+func contract_AppendUnknown(b, unknown []byte) (r []byte, err error) {
+	requires(disjointFromTail(unknown, b))
+	modifiesTail(b)
+	ensures(iff(err == nil, specUnknownSize(unknown) >= 0))
+	ensures(imp(err == nil, len(r) == len(b)+specUnknownSize(unknown)))
+	ensures(imp(err != nil, r == nil))
+	return
+}
+
+// Size of the unknown section equals what AppendUnknown emits.
+//
+//@ props C47
+//@ mode int
+func lemma_SizeAppendUnknown(b, unknown []byte) {
+	requires(disjointFromTail(unknown, b))
+	r, err := AppendUnknown(b, unknown)
+	ensures(imp(err == nil, len(r)-len(b) == SizeUnknown(unknown)))
+}
+
+// Unmarshal walks the items: it never panics, never reads past b and never drops an error
+// reported by a parser or by the callback.
+//
+//@ props C47
+//@ mode int
+//@ nopanic
+//@ guard-errors
+//@ loop 1 invariant suffixOf(b, old(b))
+func contract_Unmarshal(b []byte, wantLen bool, fn func(typeID protowire.Number, value []byte) error) (err error) {
+	modifiesAll()
+	return
+}
